@@ -209,7 +209,11 @@ Section Rev.
       | [] => Some (rev acc)
       | cur :: rest =>
         let '(index, dist) := cur in
-        if visited vis index then search_loop d a reverse origin conds h f rest vis counter acc
+        if visited vis index then
+          (* a visited edge (the origin met again in its node's list) still continues the lazy list *)
+          let rest' := if fix_visited_chain rv && (index <? 0) then expand (gr d) a reverse origin rest cur false
+                       else rest in
+          search_loop d a reverse origin conds h f rest' vis counter acc
         else
           let vis' := Z.abs index :: vis in
           let '(control, counter') := handle h counter (eval_conditions d index dist conds) in
@@ -226,7 +230,7 @@ Section Rev.
     end.
 
   (* every element is visited at most once and each visit pushes at most two items *)
-  Definition search_fuel (g : graph) : nat := 3 * length (g_from g) + 3.
+  Definition search_fuel (g : graph) : nat := 4 * length (g_from g) + 4.
 
   Definition graph_search (d : db) (a : algo) (reverse : bool) (origin : Z) (conds : list cond) (h : handler_kind)
     : option (list Z) :=
